@@ -59,11 +59,7 @@ func specLemmaObligations(r *Runner) []*LedgerEntry {
 		}
 		qa := ex.Rq(arr, a)
 		hyp := And(Sle(I64(0), a), Or(Eq(qa, q8(tab.Dead())), Eq(qa, q8(tab.Done()))))
-		cases := []struct {
-			name string
-			hyps []*Term
-			goal *Term
-		}{
+		cases := []lemmaCase{
 			{"base", []*Term{hyp}, absorbed(a)},
 			{"step", []*Term{hyp, Sle(a, n), Slt(n, I64(1<<62)), absorbed(n), ex.stepAxiom(arr, n)}, absorbed(Add(n, I64(1)))},
 		}
@@ -71,12 +67,11 @@ func specLemmaObligations(r *Runner) []*LedgerEntry {
 			// ws-prefix lemma, step: in the initial configuration a whitespace byte changes nothing
 			before := q8(tab.ID(rjvSpecLocal{Ctl: rjvSpecBefore, Ctx: rjvSpecCtxTop}))
 			isws := byteIn(Select(arr, n), ' ', '\t', '\r', '\n')
-			cases = append(cases, struct {
-				name string
-				hyps []*Term
-				goal *Term
-			}{"wsprefix-step", []*Term{Eq(ex.Rq(arr, n), before), Eq(ex.Rdepth(arr, n), I64(0)), isws, ex.stepAxiom(arr, n)},
+			cases = append(cases, lemmaCase{"wsprefix-step", []*Term{Eq(ex.Rq(arr, n), before), Eq(ex.Rdepth(arr, n), I64(0)), isws, ex.stepAxiom(arr, n)},
 				And(Eq(ex.Rq(arr, Add(n, I64(1))), before), Eq(ex.Rdepth(arr, Add(n, I64(1))), I64(0)))})
+		}
+		if v.name == "value" {
+			cases = append(cases, countLemmaCases(r, arr)...)
 		}
 		for _, c := range cases {
 			q := &Query{Name: "spec/absorb/" + c.name, Hyps: c.hyps, Goals: []*Term{c.goal}}
@@ -98,6 +93,83 @@ func specLemmaObligations(r *Runner) []*LedgerEntry {
 	return out
 }
 
+
+type lemmaCase struct {
+	name string
+	hyps []*Term
+	goal *Term
+}
+
+// countLemmaCases: the counters na / no of the spec transducer equal the number of array /
+// object frames on its stack (cnt, defined by recursion over the stack height), hence the
+// consequences used by the fast machine's simulation (Exec.countLemma). Everything is proved by
+// induction with explicit instances of cnt's defining equation:
+//   frame-*  : cnt(K, store(f,d,x), j) == cnt(K, f, j) for 0 <= j <= d          (induction on j)
+//   bound-*  : 0 <= cnt(K,f,j) <= j, and >= 1 when j >= 1 and f[0] == K           (induction on j)
+//   inv-*    : q(k) == Dead or (0 <= depth(k) <= limit and na(k) == cnt(Arr, frame(k), depth(k))
+//              and no(k) == cnt(Obj, ...))                                       (induction on k)
+//   final    : inv(k) and bound(depth(k)) imply countLemma(k)
+func countLemmaCases(r *Runner, arr *Term) []lemmaCase {
+	tab := specTab()
+	ex := &Exec{eng: r.eng, simVariant: "value", simLimit: 10000, simFast: true}
+	fs := ArraySort(BV(64), BV(8))
+	cnt := func(K, f, j *Term) *Term { return App("framecnt", BV(64), K, f, j) }
+	unfold := func(K, f, j *Term) *Term {
+		prev := Sub(j, I64(1))
+		return Eq(cnt(K, f, j), Ite(Sle(j, I64(0)), I64(0), Add(cnt(K, f, prev), Ite(Eq(Select(f, prev), K), I64(1), I64(0)))))
+	}
+	K := Var("lemma.K", BV(8))
+	f := Var("lemma.f", fs)
+	d := Var("lemma.d", BV(64))
+	x := Var("lemma.x", BV(8))
+	j := Var("lemma.j", BV(64))
+	j1 := Add(j, I64(1))
+	f2 := Store(f, d, x)
+	pa := func(j *Term) *Term { return Eq(cnt(K, f2, j), cnt(K, f, j)) }
+	big := I64(1 << 40)
+	pb := func(K, f, j *Term) *Term {
+		c := cnt(K, f, j)
+		return And(Sle(I64(0), c), Sle(c, j), Implies(And(Sle(I64(1), j), Eq(Select(f, I64(0)), K)), Sle(I64(1), c)))
+	}
+	k := Var("lemma.k", BV(64))
+	k1 := Add(k, I64(1))
+	kA, kO := q8(ctxKindArr), q8(ctxKindObj)
+	inv := func(k *Term) *Term {
+		dk, fk := ex.Rdepth(arr, k), ex.Rframe(arr, k)
+		return Or(Eq(ex.Rq(arr, k), q8(tab.Dead())),
+			And(Sle(I64(0), dk), Sle(dk, I64(10000)), Eq(ex.Rna(arr, k), cnt(kA, fk, dk)), Eq(ex.Rno(arr, k), cnt(kO, fk, dk))))
+	}
+	dk, fk := ex.Rdepth(arr, k), ex.Rframe(arr, k)
+	dk1, fk1 := ex.Rdepth(arr, k1), ex.Rframe(arr, k1)
+	// frame lemma instance for the push case of the step: the stored slot is above the counted range
+	frameInst := func(K *Term) *Term {
+		return Implies(Sle(I64(0), dk), And(Eq(cnt(K, Store(fk, dk, kA), dk), cnt(K, fk, dk)), Eq(cnt(K, Store(fk, dk, kO), dk), cnt(K, fk, dk))))
+	}
+	var stepHyps []*Term
+	stepHyps = append(stepHyps, Sle(I64(0), k), Slt(k, I64(1<<62)), inv(k), ex.stepAxiom(arr, k))
+	for _, K := range []*Term{kA, kO} {
+		stepHyps = append(stepHyps, unfold(K, fk, dk), unfold(K, fk1, dk1), frameInst(K))
+	}
+	// well-formed frames: every slot below the depth holds an array or object marker
+	kindOK := func(x *Term) *Term { return Or(Eq(x, kA), Eq(x, kO)) }
+	wf := func(k, j *Term) *Term {
+		// the depth stays within [-k-1, k] (no wrap-around), and the slots below it are well-formed
+		return And(Sle(Sub(Sub(I64(0), k), I64(1)), ex.Rdepth(arr, k)), Sle(ex.Rdepth(arr, k), k),
+			Implies(And(Sle(I64(0), j), Slt(j, ex.Rdepth(arr, k))), kindOK(Select(ex.Rframe(arr, k), j))))
+	}
+	return []lemmaCase{
+		{"count-wf-base", []*Term{ex.initAxiom(arr)}, wf(I64(0), j)},
+		{"count-wf-step", []*Term{Sle(I64(0), k), Slt(k, I64(1<<62)), wf(k, j), ex.stepAxiom(arr, k)}, wf(k1, j)},
+		{"count-final-wf", []*Term{wf(k, I64(0)), wf(k, Sub(dk, I64(1)))}, Implies(Sle(I64(1), dk), And(kindOK(Select(fk, I64(0))), kindOK(Select(fk, Sub(dk, I64(1))))))},
+		{"count-frame-base", []*Term{unfold(K, f2, I64(0)), unfold(K, f, I64(0))}, pa(I64(0))},
+		{"count-frame-step", []*Term{Sle(I64(0), j), Slt(j, d), pa(j), unfold(K, f2, j1), unfold(K, f, j1)}, pa(j1)},
+		{"count-bound-base", []*Term{unfold(K, f, I64(0))}, pb(K, f, I64(0))},
+		{"count-bound-step", []*Term{Sle(I64(0), j), Slt(j, big), pb(K, f, j), unfold(K, f, j1)}, pb(K, f, j1)},
+		{"count-inv-base", []*Term{ex.initAxiom(arr), unfold(kA, ex.Rframe(arr, I64(0)), I64(0)), unfold(kO, ex.Rframe(arr, I64(0)), I64(0))}, inv(I64(0))},
+		{"count-inv-step", stepHyps, inv(k1)},
+		{"count-final", []*Term{inv(k), pb(kA, fk, dk), pb(kO, fk, dk), wf(k, I64(0)), wf(k, Sub(dk, I64(1)))}, ex.countLemma(arr, k)},
+	}
+}
 
 // dvLemmaObligations: the step case of the stickiness lemma of the saturating decimal value:
 // DV(k,b) == 2^64 and data[b] a digit imply DV(k,b+1) == 2^64 (base case is trivial: a == b).
